@@ -149,13 +149,13 @@ func (d *Data) MergeLabels(v dvid.VersionID, op labels.MergeOp, info dvid.ModInf
 
 	verifhook.Yield("labelmap.MergeLabels.target")
 	// Write the final merged index and also record surface_mutid since surface changed.
-	if err = targetIdx.Add(mergeIdx, mutInfo); err != nil {
+	// The target's index is read again, extended and written back under its shard lock: the copy
+	// read at the top of this function may be stale by now (a concurrent merge into, or cleave
+	// of, the same body), and writing it back would undo that mutation in the index.
+	if targetIdx, err = addToLabelIndex(d, v, op.Target, mergeIdx, mutInfo); err != nil {
 		return
 	}
 	dvid.Infof("putting targetIdx with user %s\n", targetIdx.LastModUser)
-	if err = PutLabelIndex(d, v, op.Target, targetIdx); err != nil {
-		return
-	}
 	for merged := range delta.Merged {
 		DeleteLabelIndex(d, v, merged)
 	}
